@@ -441,6 +441,8 @@ def catalog(thorough):
     add(PP); add(get(SStruct, [BE32, BOOL, LEF32])); add(get(SStruct, [BEF64, I8]))
     P_u8u32 = get(SStruct, [U8, U32]); P_bool = get(SStruct, [U8, BOOL])
     add(get(SStruct, [P_u8u32, U8]))                        # nested sized struct
+    # arrays whose element has SIZE != ALIGN and a validity constraint
+    add(get(SStruct, [Arr(P_bool, 3), U8])); add(get(SStruct, [U16, Arr(get(SStruct, [U8, U32]), 2)]))
     # sized enums
     tags = ["u8", "u16", "u32"]
     vsets = [
@@ -464,9 +466,11 @@ def catalog(thorough):
     QP = add(get(SEnum, "u8", [("unit", []), ("tuple", [LE32, BOOL]), ("tuple", [PP])], 0))   # portable sized enum
     Q_small = get(SEnum, "u8", vsets[0][0], 0)
     add(get(SStruct, [Q_small, U16]))
+    Q_u32 = get(SEnum, "u8", [("unit", []), ("tuple", [U32]), ("tuple", [BOOL])], 0)
+    add(get(SStruct, [Arr(Q_u32, 2)])); add(get(SStruct, [U8, Arr(Q_small, 3)]))
     # containers at top level
     VP = [(UNIT, U8), (U8, U8), (U8, U16), (U8, U32), (U16, U8), (U32, U8), (U64, U8), (U64, U32), (U128, U8), (ARR[0], U32), (BOOL, U8), (BOOL, U32),
-          (LE32, LE16), (U16, BE32), (P_u8u32, U16), (Q_small, U8), (K3, U8), (I32, U16), (P_bool, U8), (U8, USIZE), (U8, U64), (LE16, U8), (U8, LE64)]
+          (LE32, LE16), (U16, BE32), (P_u8u32, U16), (Q_small, U8), (K3, U8), (I32, U16), (P_bool, U8), (U8, USIZE), (U8, U64), (LE16, U8), (U8, LE64), (Arr(P_bool, 2), U8), (Arr(BOOL, 3), U16)]
     for e, l in VP: add(Vec(e, l))
     for l in [U8, U16, U32, USIZE, LE16, BE32]: add(Str(l))
     V88 = Vec(U8, U8); V_i32_16 = Vec(I32, U16); V_b8 = Vec(BOOL, U8); S8 = Str(U8)
@@ -518,6 +522,11 @@ def catalog(thorough):
     add(get(UEnum, "u16", [("unit", []), ("tuple", [Vec(U8, U8)])], 0, True))
     add(get(UEnum, "u32", [("unit", []), ("tuple", [LE16, Str(U8)])], 0, True))
     add(Flex(Vec(U32, U8), U8)); add(Flex(Vec(U16, U8), U8))
+    # instantiations of the generic definitions
+    for r_, sp in [("GU<u8, 0>", "generic_ustruct(u8,0)"), ("GU<u32, 3>", "generic_ustruct(u32,3)"), ("GU<Bool, 2>", "generic_ustruct(bool,2)"),
+                   ("GE<u8, u32, 2>", "generic_uenum(u8,u32,2)"), ("GE<u64, Bool, 1>", "generic_uenum(u64,bool,1)"), ("GE<u16, u8, 0>", "generic_uenum(u16,u8,0)")]:
+        g = Leaf(r_, spec=sp); g.sized = False
+        add(g)
     # FlexVec at top level
     items = [U8, U32, BOOL, P_u8u32, V88, V_i32_16, V_b8, S8, U_u32_v88, W_pad, Flex(U8, U8), U_u8_v, W_repo]
     ls = [U8, U16, U32, LE16] if thorough else [U8, U16]
@@ -530,6 +539,124 @@ def catalog(thorough):
     return top
 
 IO_SHAPES = []
+GENERIC_SRC = r'''
+// ---- generic definitions (modelled on the repo's tests/src/generics.rs), hand-written glue
+#[flat(sized = false, default = true)]
+pub struct GU<T: Flat + Default + Clone, const N: usize>
+where
+    [T; N]: Default,
+{
+    pub a: [T; N],
+    pub b: u8,
+    pub c: FlatVec<T, u16>,
+}
+impl<T: SizedNode + Default, const N: usize> Node for GU<T, N>
+where
+    [T; N]: Default,
+{
+    fn desc() -> Desc { Desc::Struct { fields: vec![<[T; N] as Node>::desc(), <u8 as Node>::desc(), <FlatVec<T, u16> as Node>::desc()], sized: false } }
+    fn read(&self) -> Value { Value::Struct(vec![self.a.read(), self.b.read(), self.c.read()]) }
+    unsafe fn emplace_value_unchecked<'a>(bytes: &'a mut [u8], v: &Value, kind: Kind) -> Result<&'a mut Self, Error> {
+        let f = fields(v);
+        match kind {
+            Kind::Literal => GUInit { a: <[T; N] as SizedNode>::from_value(&f[0]), b: <u8 as SizedNode>::from_value(&f[1]), c: ByValue(&f[2], kind) }.emplace_unchecked(bytes),
+            _ => GUInit { a: ByValue(&f[0], kind), b: ByValue(&f[1], kind), c: ByValue(&f[2], kind) }.emplace_unchecked(bytes),
+        }
+    }
+    fn walk(&self, w: &mut Walk) {
+        w.obj(self, "ustruct");
+        w.bytes(self.as_bytes(), "ustruct.as_bytes");
+        self.a.walk(w);
+        self.b.walk(w);
+        self.c.walk(w);
+    }
+    fn apply(&mut self, path: &[usize], op: &Op) -> OpOut {
+        match path.split_first() {
+            None => unsized_self_op(self, op),
+            Some((0, r)) => self.a.apply(r, op),
+            Some((1, r)) => self.b.apply(r, op),
+            Some((2, r)) => self.c.apply(r, op),
+            _ => OpOut::BadPath,
+        }
+    }
+    fn field_probes(&self) -> Vec<FieldProbe> { vec![probe(&self.a), probe(&self.b), probe(&self.c)] }
+    fn extra() -> Extra { Extra { last_field_offset: Some(Self::LAST_FIELD_OFFSET), ..Default::default() } }
+    fn declared_portable() -> bool { false }
+    fn try_default(bytes: &mut [u8]) -> Option<Result<&mut Self, Error>> { Some(Self::default_in_place(bytes)) }
+    harness::impl_flex_push_default!();
+}
+
+#[flat(sized = false, default = true, tag_type = "u16")]
+pub enum GE<S: Flat + Default + Clone, T: Flat + Default + Clone, const N: usize>
+where
+    [T; N]: Default,
+{
+    #[default]
+    V0,
+    V1(S, T),
+    V2([T; N], FlatVec<T, u8>),
+    V3 { f0: S, f1: GU<T, N> },
+}
+impl<S: SizedNode + Default, T: SizedNode + Default, const N: usize> Node for GE<S, T, N>
+where
+    [T; N]: Default,
+{
+    fn desc() -> Desc {
+        Desc::Enum { tag: 2, variants: vec![vec![], vec![S::desc(), T::desc()], vec![<[T; N] as Node>::desc(), <FlatVec<T, u8> as Node>::desc()], vec![S::desc(), <GU<T, N> as Node>::desc()]], sized: false, default: Some(0) }
+    }
+    fn read(&self) -> Value {
+        match self.as_ref() {
+            GERef::V0 => Value::Enum(0, vec![]),
+            GERef::V1(b0, b1) => Value::Enum(1, vec![b0.read(), b1.read()]),
+            GERef::V2(b0, b1) => Value::Enum(2, vec![b0.read(), b1.read()]),
+            GERef::V3 { f0, f1 } => Value::Enum(3, vec![f0.read(), f1.read()]),
+        }
+    }
+    unsafe fn emplace_value_unchecked<'a>(bytes: &'a mut [u8], v: &Value, kind: Kind) -> Result<&'a mut Self, Error> {
+        let (t, f) = variant(v);
+        match t {
+            0 => GEInitV0.emplace_unchecked(bytes),
+            1 => GEInitV1(ByValue(&f[0], kind), ByValue(&f[1], kind)).emplace_unchecked(bytes),
+            2 => GEInitV2(ByValue(&f[0], kind), ByValue(&f[1], kind)).emplace_unchecked(bytes),
+            3 => GEInitV3 { f0: ByValue(&f[0], kind), f1: ByValue(&f[1], kind) }.emplace_unchecked(bytes),
+            o => panic!("bad variant {}", o),
+        }
+    }
+    fn walk(&self, w: &mut Walk) {
+        w.obj(self, "uenum");
+        w.bytes(self.as_bytes(), "uenum.as_bytes");
+        match self.as_ref() {
+            GERef::V0 => {}
+            GERef::V1(b0, b1) => { b0.walk(w); b1.walk(w); }
+            GERef::V2(b0, b1) => { b0.walk(w); b1.walk(w); }
+            GERef::V3 { f0, f1 } => { f0.walk(w); f1.walk(w); }
+        }
+    }
+    fn apply(&mut self, path: &[usize], op: &Op) -> OpOut {
+        match path.split_first() {
+            None => unsized_self_op(self, op),
+            Some((i, r)) => match self.as_mut() {
+                GEMut::V0 => OpOut::BadPath,
+                GEMut::V1(b0, b1) => match i { 0 => b0.apply(r, op), 1 => b1.apply(r, op), _ => OpOut::BadPath },
+                GEMut::V2(b0, b1) => match i { 0 => b0.apply(r, op), 1 => b1.apply(r, op), _ => OpOut::BadPath },
+                GEMut::V3 { f0, f1 } => match i { 0 => f0.apply(r, op), 1 => f1.apply(r, op), _ => OpOut::BadPath },
+            },
+        }
+    }
+    fn field_probes(&self) -> Vec<FieldProbe> {
+        match self.as_ref() {
+            GERef::V0 => vec![],
+            GERef::V1(b0, b1) => vec![probe(b0), probe(b1)],
+            GERef::V2(b0, b1) => vec![probe(b0), probe(b1)],
+            GERef::V3 { f0, f1 } => vec![probe(f0), probe(f1)],
+        }
+    }
+    fn extra() -> Extra { Extra { data_offset: Some(Self::DATA_OFFSET), data_min_sizes: Self::DATA_MIN_SIZES.to_vec(), ..Default::default() } }
+    fn declared_portable() -> bool { false }
+    fn try_default(bytes: &mut [u8]) -> Option<Result<&mut Self, Error>> { Some(Self::default_in_place(bytes)) }
+    harness::impl_flex_push_default!();
+}
+'''
 
 def main():
     out = sys.argv[1]
@@ -544,6 +671,7 @@ def main():
     for it in Item.order[:nq_items]:
         src.append("// id: %s" % it.spec())
         src.append(EMIT[it.PREFIX](it))
+    src.append(GENERIC_SRC)
     src.append("}\npub use quick_items::*;")
     src.append("#[cfg(feature = \"thorough\")]\nmod thorough_items {\nuse super::*;")
     for it in Item.order[nq_items:]:
